@@ -244,6 +244,10 @@ void error_handler (const char *err) {
         longjmp (current_error_context->context, 1);
     }
 
+  /* no catch is going to look at the limit flags any more: the error is on
+   * its way to the driver (or to a safe_apply) */
+  clear_error_state ();
+
   if (in_error)
     {
       debug_message ("{}\t***** New error occured while generating error trace!");
